@@ -56,6 +56,8 @@ def gen_freqs(rng, n, skew):
 
 
 def gen_rate(rng, wide):
+    if rng.random() < 0.1:
+        return 1.0           # the boundary value at which a model degenerates to a simpler one (kappa = 1, equal rates)
     return logu(rng, 1e-4, 1e4) if wide else logu(rng, 0.1, 10.0)
 
 
